@@ -51,17 +51,19 @@ def gen_requests(rng, n_per_codec, codecs=(RS28, RS2M, LDPC), big=False):
         for _ in range(n_per_codec):
             if codec == RS28:
                 k = rng.rng(1, 40 if not big else 200); r = rng.rng(1, min(30, 255 - k)); p1 = p2 = 0
-                L = rng.choice([1, 2, 3, 4, 7, 8, 16, 17, 33])
+                L = rng.choice([1, 2, 3, 4, 7, 8, 15, 16, 17, 31, 33]) if rng.chance(1, 2) else rng.rng(1, 70)   # every residue of the 16/32-byte unrolled kernels
             elif codec == RS2M:
                 m = rng.choice([4, 8]); p1, p2 = m, 0
                 if m == 4:
                     k = rng.rng(1, 14); r = rng.rng(1, 15 - k)
                 else:
                     k = rng.rng(1, 40 if not big else 200); r = rng.rng(1, min(30, 255 - k))
-                L = rng.choice([1, 2, 3, 4, 7, 8, 16, 17, 33])
+                L = rng.choice([1, 2, 3, 4, 7, 8, 15, 16, 17, 31, 33]) if rng.chance(1, 2) else rng.rng(1, 70)   # every residue of the 16/32-byte unrolled kernels
             elif codec == LDPC:
                 k = rng.rng(1, 30 if not big else 300); r = rng.rng(3, 20 if not big else 150)
                 p1 = rng.rng(3, min(r, 7)); p2 = rng.rng(1, 2 ** 31 - 2)
+                if rng.chance(1, 4):       # boundary seeds of the PRNG
+                    p2 = rng.choice([1, 2, 16807, 2 ** 31 - 3, 2 ** 31 - 2, 1407677000])
                 L = rng.choice([1, 3, 4, 8, 9])
             else:
                 k, r = rng.choice(p2d_shapes()); p1 = p2 = 0
